@@ -1198,7 +1198,9 @@ func genCase(t *rapid.T) *apiCase {
 	c.RType = rapid.IntRange(0, 1).Draw(t, "rtype")
 	c.Via = rapid.SampledFrom([]int{0, 0, 1, 2}).Draw(t, "via")
 	nEval := rapid.SampledFrom([]int{0, 1, 1, 2, 2, 3}).Draw(t, "evals")
-	bodies := []string{`{"id":7,"name":"n","tags":["a","b"]}`, `{"id":3}`, `{}`, `null`, `{"id":"x"}`, `{"id":`, ``, `[1,2]`, `{"name":"ü","tags":null,"other":{"k":1}}`}
+	bodies := []string{`{"id":7,"name":"n","tags":["a","b"]}`, `{"id":3}`, `{}`, `null`, `{"id":"x"}`, `{"id":`, ``, `[1,2]`, `{"name":"ü","tags":null,"other":{"k":1}}`,
+		// a complete JSON value followed by something else is not a JSON document
+		`{"id":7}{"error":"late"}`, `{"id":7}]`, "{\"id\":7}\n<html>502</html>", `{"id":7} `}
 	c.Resp = []respSpec{}
 	for i := 0; i < nEval; i++ {
 		r := respSpec{Body: rapid.SampledFrom(bodies).Draw(t, "respBody")}
